@@ -89,7 +89,7 @@ def run_one(name, m, repo, with_tests=True, budget=None, seed=0):
             # negative control: a correct change; every check must stay silent
             t0 = time.time()
             out['checks'] = {}
-            for prop in ('C04', 'C14', 'C15', 'C16'):
+            for prop in os.environ.get('SENS_CONTROL_PROPS', 'C04,C14,C15,C16').split(','):
                 p = subprocess.run([PY, os.path.join(VERIF, 'check.py'), prop, '--tier', 'quick'], cwd=VERIF,
                                    capture_output=True, text=True, env=env2)
                 out['checks'][prop] = p.returncode
